@@ -2,7 +2,7 @@
 from props import brokerprops as B
 
 LEVEL = 'proof'
-TRUSTED_EXTRA = ['harness/pytrans3.py: fail-closed translator of Server.subscribe/unsubscribe/publish (hpfeeds/broker/server.py) and Connection.is_closing/connection_lost/on_publish/on_subscribe/on_unsubscribe/authenticate/message_received (hpfeeds/broker/connection.py) -> coq/BrokerGen.v (regenerated on every run), with coq/PyBroker.v, its reading of the objects (a Connection = its index; self.server None / not in server.connections = one flag; sets and the subscriber list as lists; which metrics, log calls and attributes are skipped; where the ghost log of accepted actions is appended); each translated method is proved equal to the hand-written model in coq/BrokerGenEq.v and run_src = run in coq/BrokerGenRun.v; hand-written there: the frame loop of process_pending, BaseProtocol.message_received dispatch, Connection.on_auth, connection_made, transport callbacks, the deadline timer', 'FunctionalExtensionality.functional_extensionality_dep (Coq standard library) for the *_src_* theorems only']
+TRUSTED_EXTRA = ['harness/pytrans3.py: fail-closed translator of Server.subscribe/unsubscribe/publish (hpfeeds/broker/server.py) and Connection.is_closing/connection_lost/on_publish/on_subscribe/on_unsubscribe/authenticate/on_auth/on_auth_result/message_received/connection_made (hpfeeds/broker/connection.py) and BaseProtocol.message_received (hpfeeds/asyncio/protocol.py) -> coq/BrokerGen.v (regenerated on every run), with coq/PyBroker.v, its reading of the objects (a Connection = its index; self.server None / not in server.connections = one flag; sets and the subscriber list as lists; which metrics, log calls and attributes are skipped; where the ghost log of accepted actions is appended); each translated method is proved equal to the hand-written model in coq/BrokerGenEq.v and run_src = run in coq/BrokerGenRun.v; hand-written there: the frame loop of process_pending, the object before connection_made, which queued completion an event runs, transport callbacks, the deadline timer; skipped statements (metrics no property names, log, uid/peer/port, socket options, MeteredSocket) are assumed not to raise', 'FunctionalExtensionality.functional_extensionality_dep (Coq standard library) for the *_src_* theorems only']
 ASSUMPTIONS = B.ASSUMPTIONS
 ASPECTS = 'DF'
 RULE = ('random histories of 2-5 connections over two permission tables: per-connection scripts of AUTH (valid and ten invalid '
